@@ -437,7 +437,7 @@ func c15(run *ev.Run, tier string) {
 		src := filepath.Join(ndir, "p.txt")
 		_ = os.WriteFile(src, []byte("p\n"), 0o644)
 		type unusual struct {
-			name, release, platform, arch, debArch string
+			name, release, platform, arch, debArch, allArch string
 		}
 		var specs []unusual
 		for _, name := range []string{"my pkg", "-lead", ".dot", "pkg\u00e9", "UPPER_case", "a/b", "plus+plus", "at@sign", "100%free", "pct%s%d"} {
@@ -447,10 +447,17 @@ func c15(run *ev.Run, tier string) {
 			// a platform next to an architecture that already begins with it
 			unusual{name: "plat", platform: "kfreebsd", arch: "amd64", debArch: "kfreebsd-amd64"}, unusual{name: "plat2", platform: "hurd", arch: "hurd-i386"},
 			unusual{name: "plat3", platform: "darwin", arch: "darwin-arm64", debArch: "darwin-arm64"})
+		// a format-specific architecture that happens to be a key of the GOARCH table
+		for _, a := range []string{"arm7", "arm6", "386", "arm64", "s390", "all"} {
+			specs = append(specs, unusual{name: "ovarch", arch: "amd64", allArch: a})
+		}
 		for _, u := range specs {
 			name := u.name
 			s := &gen.Spec{Name: name, Arch: u.arch, Version: "1.0.0", Release: u.release, Platform: u.platform, Maintainer: "N <n@example.com>", Description: "d", MTime: 1500000000}
 			s.Deb.Arch = u.debArch
+			if u.allArch != "" {
+				s.Deb.Arch, s.RPM.Arch, s.APK.Arch, s.IPK.Arch, s.ArchL.Arch = u.allArch, u.allArch, u.allArch, u.allArch, u.allArch
+			}
 			s.RPM.BuildHost = "verif-host"
 			s.Contents = []*gen.Content{{Src: src, Dst: "/opt/names/p.txt"}}
 			y := s.YAML()
@@ -479,7 +486,7 @@ func c15(run *ev.Run, tier string) {
 				if outs[1].Err == nil && outs[1].Panic == "" {
 					if pk := dec.Decode(f, outs[1].Bytes, false); len(pk.Errs) == 0 {
 						if want := nameFromMetadata(f, pk); fileName != want {
-							run.Violate("C15/"+f+"/file-name-vs-metadata/unusual-name", map[string]any{"name": name, "release": u.release, "platform": u.platform, "arch": u.arch, "deb_arch": u.debArch, "file_name": fileName, "from_metadata": want})
+							run.Violate("C15/"+f+"/file-name-vs-metadata/unusual-name", map[string]any{"name": name, "release": u.release, "platform": u.platform, "arch": u.arch, "deb_arch": u.debArch, "format_specific_arch": u.allArch, "file_name": fileName, "from_metadata": want})
 						}
 					}
 				}
